@@ -217,6 +217,15 @@ func Go(fn func()) {
 	}})
 }
 
+// ChanPoint is inserted next to every channel operation of the library (send,
+// receive, select): channels are not modelled, but an operation on one is a
+// synchronisation point of the code under test, hence a scheduling point.
+func ChanPoint() {
+	if t := Cur(); t != nil {
+		t.Yield(KYield, nil, "chan", 0)
+	}
+}
+
 // WaitOutstanding blocks until the goroutines started outside a simulation are done.
 func WaitOutstanding() { outstanding.Wait() }
 
